@@ -2,9 +2,11 @@
 //! real library (built from /repo's working tree) on cases enumerated by TLC or
 //! by its own native enumerations, and records what happened as ndjson events
 //! that a TLA+ trace specification accepts or rejects.
+mod attrs;
 mod av;
 mod conc;
 mod cost;
+mod ops;
 mod payload;
 mod registry;
 mod sources;
@@ -100,6 +102,8 @@ fn main() {
         "payload" => payload::run(&args),
         "registry" => registry::run(&args),
         "uri" => uri::run(&args),
+        "attrs" => attrs::run(&args),
+        "ops" => ops::run(&args),
         "cost" => cost::run(&args),
         "cost-child" => cost::cost_child(&args),
         "bomb-child" => total::bomb_child(&args),
